@@ -64,7 +64,7 @@ PROPS = {
     "C04": dict(kind="run", proj="P_C04", mon="mon_C04ctx", property_files=("C04ctx", "Refinement", "RefinementTransfer"),
                 profiles=["cond", "default", "react_loops"], quick=240, thorough=6000,
                 finding_profiles=["parloop_all"]),
-    "C05": dict(kind="run", proj="P_seq", mon="mon_true",
+    "C05": dict(kind="run", proj="P_seq", mon="mon_true", property_files=("Refinement", "RefinementTransfer"),
                 profiles=["loops", "react_loops"], quick=240, thorough=6000,
                 finding_profiles=["parloop_all", "parloop_mix"]),
     "C06": dict(kind="run", proj="P_set", mon="mon_true",
